@@ -35,3 +35,7 @@ for w in (32, 64):
     JOBS.append(dict(name="fmt.sign.w%d" % w, props=["C14", "C07"], kind="PU", bound="digit loops unwound %d with unwinding assertions (complete), all values/bases/sign flags" % (w + 4),
         harness="h_fmt.c", entry="h_fmt_sign", contracts=["common.h"], defines=["W=%d" % w, "FIXBASE=10"], loops=False, cbmc_flags=_u(w), timeout=3000, cost=15, tier="quick" if w == 32 else "thorough",
         what="sign character rule over the full domain (base 10)"))
+
+JOBS.append(dict(name="fmt.sign.w64.lo", props=["C14", "C07"], kind="B", bound="|value| < 2^34 only (the full 64-bit domain is fmt.sign.w64, thorough tier); digit loops unwound 68 with unwinding assertions",
+    harness="h_fmt.c", entry="h_fmt_sign", contracts=["common.h"], defines=["W=64", "FIXBASE=10", "SIGNLO=34"], loops=False, cbmc_flags=_u(64), timeout=1800, cost=15, tier="quick",
+    what="sign character rule of the 64-bit formatter around the 32-bit boundary (base 10)"))
